@@ -190,7 +190,9 @@ var placements = []string{"single", "override", "extends-base", "included",
 	// the same confusing value on BOTH sides of a merge: two files, or an extending service and its base
 	"both-files", "extends-both",
 	// the confusing value in the base (another file), a valid value for the same attribute in the extending service
-	"extends-valid-child"}
+	"extends-valid-child",
+	// the same inside ONE file: a base of the same file is merged raw, before any transformation has looked at it
+	"extends-same-file"}
 
 var optSets = []LoadOpts{
 	{},
@@ -342,10 +344,15 @@ func c01cLayout(cs c01cCase, paths []schemaPath) *Layout {
 			L.Files[main] = Emit(doc, nil)
 		}
 		L.Main = []string{main}
-	case "extends-valid-child":
+	case "extends-valid-child", "extends-same-file":
 		if p.Root == "services" && len(p.Segs) > 0 {
-			L.Files["/proj/base/base_f0.yaml"] = Emit(doc, nil)
+			sameFile := cs.Placement == "extends-same-file"
 			child := Map().Set("image", Str("img")).Set("extends", Map().Set("file", Str("./base/base_f0.yaml")).Set("service", Str("svc")))
+			if sameFile {
+				child = Map().Set("image", Str("img")).Set("extends", Str("svc"))
+			} else {
+				L.Files["/proj/base/base_f0.yaml"] = Emit(doc, nil)
+			}
 			r := zsimrt.NewRun(1)
 			g := &G{R: r, feat: map[string]bool{}, L: &Layout{}}
 			c := &svcCtx{name: "child", dir: "/proj", networks: []string{"n1"}, volumes: []string{"v1"}, secrets: []string{"s1"}, configs: []string{"c1"}, others: []string{"other"}}
@@ -358,6 +365,11 @@ func c01cLayout(cs c01cCase, paths []schemaPath) *Layout {
 				md.Set("configs", Map().Set("c1", Map().Set("file", Str("./c"))))
 			} else if p.Segs[0] == "build" {
 				child.Set("build", Str("."))
+			}
+			if sameFile {
+				if sd := doc.Get("services"); sd != nil && sd.Kind == 1 && sd.Get("svc") != nil {
+					md.Get("services").Set("svc", sd.Get("svc"))
+				}
 			}
 			L.Files[main] = Emit(md, nil)
 		} else {
